@@ -141,6 +141,18 @@ fn c14_transmit_cycle() {
                 assert!(m.state.cycle_state == CycleState::DataExchange(0));
             } else {
                 assert!(!ev.cycle_completed && nev >= 1);
+                // the turn ended early to deliver the event: the cycle position is kept, the next turn continues
+                // with the next occupied slot that has not been asked yet
+                let mut nxt = expect;
+                while nxt < SLOTS && !occ[nxt] { nxt += 1; }
+                match m.state.cycle_state {
+                    CycleState::DataExchange(c) => {
+                        let mut f = c as usize;
+                        while f < SLOTS && !occ[f] { f += 1; }
+                        assert!(f == nxt);
+                    }
+                    _ => assert!(false),
+                }
             }
         }
     }
